@@ -366,7 +366,10 @@ func c16ValueFor(r *core.Rand, t reflect.Type, depth int, ill bool) any {
 	return nil
 }
 
-var c16ExtraKeys = []string{"extra", "zz", "", "<<", "1", "true", "~", "Key", "KEY", "s ", "rest", "remainingfields", "contents"}
+// extras include the field keys of the other family types: unknown here, claimed there (state leaking from one
+// call to the next shows up as such a key vanishing)
+var c16ExtraKeys = []string{"extra", "zz", "", "<<", "1", "true", "~", "Key", "KEY", "s ", "rest", "remainingfields", "contents",
+	"k", "n", "key", "label", "group", "name", "id", "cmds", "s", "i", "f", "b", "ms", "ma", "mss", "title"}
 
 func c16DocFor(r *core.Rand, t reflect.Type, depth int, ill bool) *ordered.MapSA {
 	type cand struct {
@@ -523,6 +526,28 @@ func runC16(c *ctx) error {
 					}
 				} else {
 					c.res.Hist("yaml-oracle.rejects")
+				}
+			}
+		}
+		// oracle: map-typed fields of a pre-populated destination keep the entries the document does not mention
+		// (an empty mapping mentions none), as yaml.v3 does
+		if fam.aliasFree && !ill && pre && err == nil && !nullInSeq(doc) {
+			if jb, jerr := json.Marshal(doc); jerr == nil {
+				ref := fam.prefilled()
+				if yerr := yaml.Unmarshal(jb, ref); yerr == nil {
+					a := reflect.ValueOf(dst).Elem()
+					b := reflect.ValueOf(ref).Elem()
+					for fi := 0; fi < a.NumField() && a.Kind() == reflect.Struct; fi++ {
+						fa, fb := a.Field(fi), b.Field(fi)
+						if fa.Kind() != reflect.Map || !fa.CanInterface() || a.Type().Field(fi).Tag.Get("yaml") == ",inline" {
+							continue
+						}
+						c.res.OracleChecks++
+						if fa.Len() != fb.Len() {
+							c.res.Fail(core.OracleFailure{What: "a map field of a pre-populated destination ends up with other entries than under yaml.v3's decoder",
+								Input: map[string]any{"type": fam.name, "doc": string(jb), "field": a.Type().Field(fi).Name}, Got: fmt.Sprint(fa.Interface()), Want: fmt.Sprint(fb.Interface())})
+						}
+					}
 				}
 			}
 		}
